@@ -1062,3 +1062,86 @@ func R21RangeAssigned(c *Ctx) {
 		c.R.Anchor(rule, "local hcl.Range variables in the hclsyntax parser")
 	}
 }
+
+// R21BodyPlaceholder — a block never carries a nil body.
+func R21BodyPlaceholder(c *Ctx) {
+	const rule = "R21-body-placeholder"
+	c.R.Rule(rule, "where the parser stores a body into a Block that may come back nil from a sub-parser, the nil case is replaced by a placeholder under a HasErrors() test of diagnostics that already include that sub-parser's own diagnostics (the only reason for a nil body is an error it reported): a test that runs before those diagnostics were appended leaves Body == nil, and every walk over the syntax tree dereferences it", 1)
+	n := 0
+	for _, fn := range c.P.ModuleFuncs(func(p string) bool { return p == PkgYaotl+"/hclsyntax" }) {
+		for _, b := range fn.Blocks {
+			for _, in := range b.Instrs {
+				st, ok := in.(*ssa.Store)
+				if !ok {
+					continue
+				}
+				t, f, _, ok := FieldOf(st.Addr)
+				if !ok || !strings.HasSuffix(t, "hclsyntax.Block") || f != "Body" {
+					continue
+				}
+				ph, ok := st.Val.(*ssa.Phi)
+				if !ok {
+					continue
+				}
+				// the sub-parser calls whose first result can be the body, and the placeholder edge
+				var producers []*ssa.Call
+				var placeholder *ssa.BasicBlock
+				var walk func(v ssa.Value, from *ssa.BasicBlock, seen map[ssa.Value]bool)
+				walk = func(v ssa.Value, from *ssa.BasicBlock, seen map[ssa.Value]bool) {
+					if seen[v] {
+						return
+					}
+					seen[v] = true
+					switch x := v.(type) {
+					case *ssa.Phi:
+						for i, e := range x.Edges {
+							walk(e, x.Block().Preds[i], seen)
+						}
+					case *ssa.Extract:
+						if call, ok := x.Tuple.(*ssa.Call); ok && x.Index == 0 {
+							producers = append(producers, call)
+						}
+					case *ssa.Alloc:
+						placeholder = from
+					}
+				}
+				walk(ph, b, map[ssa.Value]bool{})
+				if len(producers) == 0 || placeholder == nil {
+					continue
+				}
+				n++
+				construct := "placeholder body under HasErrors() of diagnostics that include the sub-parser's"
+				good := false
+				for _, fct := range FactsAt(placeholder) {
+					hc, ok := fct.Cond.(*ssa.Call)
+					if !ok || !fct.Truth || !strings.HasSuffix(CalleeName(hc), ".HasErrors") {
+						continue
+					}
+					all := true
+					for _, pc := range producers {
+						var dg ssa.Value
+						for _, r := range *pc.Referrers() {
+							if ex, ok := r.(*ssa.Extract); ok && ex.Index == 1 {
+								dg = ex
+							}
+						}
+						if dg == nil || !DerivesFrom(hc.Call.Args[0], func(v ssa.Value) bool { return v == dg }) {
+							all = false
+						}
+					}
+					if all {
+						good = true
+					}
+				}
+				if good {
+					c.R.Ok(rule, FuncShort(fn), construct, c.pos(st.Pos()), "the test sees the diagnostics of every sub-parser that can return a nil body", true)
+				} else {
+					c.R.Bad(rule, FuncShort(fn), construct, c.pos(st.Pos()), "the HasErrors() test that inserts the placeholder does not see the diagnostics of the sub-parser whose body may be nil: when those are the only errors the Block keeps a nil Body")
+				}
+			}
+		}
+	}
+	if n == 0 {
+		c.R.Anchor(rule, "a Block.Body store with a placeholder in hclsyntax")
+	}
+}
